@@ -44,15 +44,17 @@ def mstate : Nat → P MState
     pure (.mk name label final enter exit i block kids trans)
 
 def opts : P Opts := do
-  let nested ← bool; let showConds ← bool; let showAttrs ← bool
-  pure { nested, showConds, showAttrs }
+  let nested ← bool; let showConds ← bool; let showAttrs ← bool; let modelAttr ← nat
+  pure { nested, showConds, showAttrs, modelAttr }
 
-def step : P Step := do
+def obj : P Obj := list (do let a ← nat; let v ← list path; pure (a, v))
+
+def step : P ObjStep := do
   let k ← nat
   match k with
   | 0 => do let pre ← path; let src ← path; let dst ← path; pure (.begin pre src dst)
-  | 1 => do let cur ← list path; pure (.finish cur)
-  | _ => do let cur ← list path; pure (.regen cur)
+  | 1 => do let m ← obj; pure (.finish m)
+  | _ => do let m ← obj; pure (.regen m)
 
 def encList {α} (f : α → List Nat) (l : List α) : List Nat := l.length :: l.flatMap f
 def encNats (l : List Nat) : List Nat := l.length :: l
@@ -85,11 +87,10 @@ def request : P String := do
   let states ← list (mstate 64)
   let trans ← list mtrans
   let initial ← opt path
-  let cur0 ← list path
+  let m0 ← obj
   let h ← list step
-  let roi ← opt (list path)
-  let st := stylesAfter cur0 h
-  pure s!"D {joinNats (encDiagram (diagram o { states, trans, initial } st roi))}"
+  let roi ← opt obj
+  pure s!"D {joinNats (encDiagram (diagramObj o { states, trans, initial } m0 h roi))}"
 
 end C16
 
